@@ -111,6 +111,8 @@ def gen(prop, stream, tier, avoid):
                 continue
             e = rng.weighted(edit_w)
             op = {"op": e, "obj": o, "seed": rng.randrange(1 << 30), "dir": rng.randrange(3)}
+            if e == "set_knots":
+                op["unclamped"] = rng.pick([False, False, False, True, "outer", "outer"])
             if e == "set_pts":
                 op["via"] = rng.pick(["ctrlpts", "set_ctrlpts", "ctrlptsw", "ctrlpts2d"])
             elif e == "set_delta":
@@ -140,6 +142,17 @@ def gen(prop, stream, tier, avoid):
                 op["mult"] = rng.pick([2.0, 0.5])
                 op["angle"] = 90.0
             ops.append(op)
+    if kn.chance(0.12):
+        # motif: an unclamped knot vector, sampled; then only its outermost knots move (same domain, same interior), sampled again
+        o_ = kn.randrange(nobj)
+        d_ = kn.randrange(3)
+        prm = [kn.randint(0, 16) / 16.0 for _ in range(3)]
+        motif = [{"op": "set_knots", "obj": o_, "seed": kn.randrange(1 << 30), "dir": d_, "unclamped": True},
+                 {"op": "read", "obj": o_, "views": ["evalpts"], "param": prm},
+                 {"op": "set_knots", "obj": o_, "seed": kn.randrange(1 << 30), "dir": d_, "unclamped": "outer"},
+                 {"op": "read", "obj": o_, "views": ["evalpts", kn.pick(["bbox", "vertices", "evaluate_single"])], "param": prm}]
+        at = kn.randint(0, len(ops))
+        ops = ops[:at] + motif + ops[at:]
     return {"knobs": knobs, "objects": objs, "containers": conts, "ops": ops}
 
 
@@ -270,6 +283,34 @@ class World:
         return i, self.objs[i]
 
 
+def _model_evalpts(obj):
+    """The sampled points by the definition (independent Cox-de Boor model R1; shares no code and no memo with the library):
+    sample_size evenly spaced parameters over the domain per direction, first direction outermost. None if not applicable."""
+    m = shapes.model_of(obj)
+    ss = obj.sample_size
+    ss = [ss] if m.pdim == 1 else list(ss)
+    if any(n < 2 for n in ss):
+        return None
+    tot = 1
+    for n in ss:
+        tot *= n
+    if tot > 130:
+        return None
+    grids = []
+    for d, (lo, hi) in enumerate(m.domain()):
+        grids.append([lo + (hi - lo) * x / float(ss[d] - 1) for x in range(ss[d])])
+    out = []
+
+    def rec(d, cur):
+        if d == m.pdim:
+            out.append(m.eval_float(cur))
+            return
+        for v in grids[d]:
+            rec(d + 1, cur + [v])
+    rec(0, [])
+    return out
+
+
 def _compare(ctx, what, view, got, exp, sig):
     ok, why = close(got, exp, 1e-9)
     if not ok:
@@ -307,6 +348,10 @@ def _apply_edit(world, lv, op, rng):
     n = 1
     for s in sizes:
         n *= s
+    if e in ("insert", "remove", "refine", "degree_op", "reverse", "transpose", "flip") and getattr(lv, "unclamped", False):
+        # knot refinement / removal / degree change of an unclamped shape is outside what the library defines (and outside C12's
+        # mutators as used here); the unclamped phase ends with the next clamped knot vector or a redefinition
+        return "skip"
     if e == "set_pts":
         P = _new_points(rng, n, lv.dim)
         via = op["via"]
@@ -338,7 +383,34 @@ def _apply_edit(world, lv, op, rng):
         d = op["dir"] % nd
         degs = shapes.definition(obj)["degrees"]
         kv = shapes.gen_knots(rng, degs[d], sizes[d])
+        pdeg = degs[d]
+        if op.get("unclamped") == "outer":
+            # the current knot vector with only its outermost knots moved (indices 1..degree-1 and their mirror images): the
+            # domain [kv[degree], kv[-degree-1]] and everything inside it stay what they are, the basis functions near the ends change
+            kv = list(shapes.definition(obj)["knots"][d])
+            if kv[0] != 0.0 or kv[-1] != 1.0 or pdeg < 2 or not (kv[pdeg] > 0.0 and kv[-pdeg - 1] < 1.0):
+                return "skip"
+            fr = [sorted(rng.sample(range(1, 32), pdeg - 1)) for _ in range(2)]
+            for q in range(1, pdeg):
+                kv[q] = kv[pdeg] * fr[0][q - 1] / 32.0
+                kv[-q - 1] = 1.0 - (1.0 - kv[-pdeg - 1]) * fr[1][q - 1] / 32.0
+        elif op.get("unclamped") and pdeg >= 1:
+            # an unclamped knot vector that still spans [0, 1]: the outer `degree` knots at each end are spread out
+            # (first stays 0, last stays 1, so normalisation leaves it alone)
+            inner_lo, inner_hi = (kv[pdeg + 1] if len(kv) > 2 * pdeg + 2 else 1.0), (kv[-pdeg - 2] if len(kv) > 2 * pdeg + 2 else 0.0)
+            lo_w = min(0.25, inner_lo / 2.0)
+            hi_w = min(0.25, (1.0 - inner_hi) / 2.0)
+            frac = [sorted(rng.sample(range(1, 16), pdeg)) for _ in range(2)]
+            for q in range(1, pdeg + 1):
+                kv[q] = lo_w * frac[0][q - 1] / 16.0
+                kv[-q - 1] = 1.0 - hi_w * frac[1][q - 1] / 16.0
         lv.caller_args = [("knots", kv)]
+        lv.unclamped = bool(op.get("unclamped")) if nd == 1 else (bool(op.get("unclamped")) or getattr(lv, "unclamped_dirs", set()) - {d} != set())
+        if nd > 1:
+            ud = set(getattr(lv, "unclamped_dirs", set()))
+            (ud.add if op.get("unclamped") else ud.discard)(d)
+            lv.unclamped_dirs = ud
+            lv.unclamped = bool(ud)
         if nd == 1:
             obj.knotvector = kv
         else:
@@ -348,6 +420,7 @@ def _apply_edit(world, lv, op, rng):
         spec = shapes.gen_shape(rng, kind=lv.kind, rational=lv.rational, dim=lv.dim, max_size=6, max_degree=3)
         shapes.define(obj, spec["degrees"], spec["sizes"], shapes.spec_ctrlptsw(spec), spec["knots"])
         lv.undefined = False
+        lv.unclamped, lv.unclamped_dirs = False, set()
         return "ok"
     if e == "set_delta":
         if op["single"] and nd > 1:
@@ -455,6 +528,7 @@ def _apply_edit(world, lv, op, rng):
         else:
             c = g.operations.rotate(obj, op["angle"], axis=2)
         nl = Live(c, lv.kind, lv.rational, lv.dim)
+        nl.unclamped, nl.unclamped_dirs = getattr(lv, "unclamped", False), set(getattr(lv, "unclamped_dirs", set()))
         return ("new", nl)
     raise KeyError(e)
 
@@ -541,6 +615,17 @@ def _check_reads(ctx, lv, idx_obj, views, param, when):
         app2, exp = get_view(tw, view, param)
         ctx.log("read", idx_obj, view, len(got) if isinstance(got, list) else 0)
         _compare(ctx, "%s, %s %s object #%d" % (when, "rational" if lv.rational else "non-rational", lv.kind, idx_obj), view, got, exp, sig)
+        if view == "evalpts":
+            # a twin lives in the same process and would share a poisoned process-wide memo with the live object: the sampled
+            # points are also compared with the independent reference model
+            ref = _model_evalpts(lv.obj)
+            if ref is not None:
+                ok, why = close(got, ref, 1e-8)
+                ctx.probe("evalpts_checked_against_reference_model")
+                if not ok:
+                    ctx.fail("stale_view", "%s, %s %s object #%d: evalpts differ from the shape its public definition describes (reference model; "
+                             "a freshly built twin agrees with the live object, so the stale state is process-wide): %s" % (
+                                 when, "rational" if lv.rational else "non-rational", lv.kind, idx_obj, why), view="evalpts:model", **sig)
         if view in CACHED_VIEWS:
             if lv.edited_warm:
                 ctx.nontrivial = True
@@ -570,23 +655,31 @@ def _check_container(ctx, world, ci, views, when):
         fresh.add(t)
     sig = dict(kind="container:" + c["kind"], rational="-")
     for view in views:
-        if view == "evalpts":
-            got = [list(p) for p in cont.evalpts]
-            exp = [list(p) for p in fresh.evalpts]
-        elif view in ("vertices", "faces"):
-            if c["kind"] != "surface" or not members:
-                continue
+        if view in ("vertices", "faces") and (c["kind"] != "surface" or not members):
+            continue
+        if view == "bbox" and not members:
+            continue
+
+        def read(k_):
+            if view == "evalpts":
+                return [list(p) for p in k_.evalpts]
             if view == "vertices":
-                got = [[v.id, list(v.uv), list(v.data)] for v in cont.vertices]
-                exp = [[v.id, list(v.uv), list(v.data)] for v in fresh.vertices]
-            else:
-                got = [[f.id] + list(f.vertex_ids) for f in cont.faces]
-                exp = [[f.id] + list(f.vertex_ids) for f in fresh.faces]
-        else:
-            if not members:
+                return [[v.id, list(v.uv), list(v.data)] for v in k_.vertices]
+            if view == "faces":
+                return [[f.id] + list(f.vertex_ids) for f in k_.faces]
+            return [list(p) for p in k_.bbox]
+        try:
+            got = read(cont)
+        except Exception as e:
+            # a container of freshly built elements must fail the same way, otherwise the live container is in a state a fresh one is not
+            try:
+                read(fresh)
+            except Exception:
+                ctx.log("cread_raised_both", ci, view)
                 continue
-            got = [list(p) for p in cont.bbox]
-            exp = [list(p) for p in fresh.bbox]
+            ctx.fail("stale_view", "%s: reading '%s' of %s container #%d raised %r but works on a container of freshly built elements" % (
+                when, view, c["kind"], ci, e), view="container." + view, **sig)
+        exp = read(fresh)
         ctx.log("cread", ci, view, len(got))
         _compare(ctx, "%s, %s container #%d with members %r" % (when, c["kind"], ci, c["members"]), "container." + view, got, exp, sig)
         if c["edited_warm"]:
